@@ -55,7 +55,7 @@ fn c10_case(case: &Case, case_seed: u64, variant: &str, acc: &mut Acc) {
         diff_items(&ran.pr, &ran.rf, &ran.real, Aspects::rows()),
     ]);
     // static iteration of programs that read no outputs must not panic either
-    let reads = crate::scope::analyse(&case.program).output_reads;
+    let reads = crate::scope::test_output_reads(&case.program, &case.signals);
     if f.is_none() && reads.is_empty() {
         let (ps, parsed) = parse(&ran.pr.text);
         if let (Stage::Ok, Some(p)) = (ps, parsed) {
